@@ -162,6 +162,8 @@ func (tg *TCPGroup) worker() {
 			tg.acceptCh <- c
 		})
 		if err != nil {
+			// the group has been closed, nobody will take this connection
+			c.Close()
 			return
 		}
 	}
